@@ -26,6 +26,8 @@ type Exp struct {
 	Depth int  // number of enclosing range loops
 	Len   bool // a length measure is applied
 	Chars bool // the length must count characters
+	// Optional: the Go type chosen under --min-sized-ints already implies this bound in this world; the check may be dropped
+	Optional bool
 }
 
 func (e Exp) key() string {
@@ -217,6 +219,9 @@ func (fm *FileModel) CompareRejects(w *World, m *skel.Method, field string, exp 
 			hit = a
 			break
 		}
+		if hit == nil && e.Optional {
+			continue
+		}
 		if hit == nil {
 			// is there a branch of that kind with another atom / nothing at all?
 			msg := fmt.Sprintf("%s: the schema states %s but %s.%s has no branch rejecting on it", what, e.Kw, m.Recv, m.Name)
@@ -258,7 +263,7 @@ func (fm *FileModel) CompareRejects(w *World, m *skel.Method, field string, exp 
 		// lossy transform on the bound
 		if hit.hole != nil {
 			for _, t := range hit.hole.Tr {
-				if strings.HasPrefix(t, "trunc-") {
+				if strings.HasPrefix(t, "trunc-") && hit.hole.A.Facts["integral"] != "yes" {
 					issues = append(issues, Issue{Rule: "A-REJ:lossy", Construct: "bound truncated to integer for " + e.Kw, Site: siteOf(hit.hole),
 						Msg: fmt.Sprintf("%s: the limit of %s is converted with %s before it is printed: a fractional limit on an integer is truncated (e.g. exclusiveMaximum 2.5 rejects 2; multipleOf 0.5 becomes %% 0)", what, e.Kw, strings.TrimPrefix(t, "trunc-"))})
 				}
@@ -318,4 +323,133 @@ func SortIssues(is []Issue) {
 		}
 		return is[i].Construct < is[j].Construct
 	})
+}
+
+// ---- --min-sized-ints: a bound check may be dropped only where the type's range implies it ---------------------------
+
+type sizedType struct {
+	name     string
+	min, max float64
+}
+
+var sizedTypes = []sizedType{
+	{"int8", -128, 127}, {"int16", -32768, 32767}, {"int32", -2147483648, 2147483647}, {"int64", -9223372036854775808, 9223372036854775807}, {"int", -9223372036854775808, 9223372036854775807},
+	{"uint8", 0, 255}, {"uint16", 0, 65535}, {"uint32", 0, 4294967295}, {"uint64", 0, 18446744073709551615},
+}
+
+const two63 = 9223372036854775808.0
+
+// intCell is the closed integer interval of an integral atom's cell; ok=false when it is unbounded or beyond 64 bits.
+func (w *World) intCell(a *absint.Atom) (lo, hi float64, ok bool) {
+	c, have := w.Cells[a.ID]
+	if !have {
+		return 0, 0, false
+	}
+	lo, hi = c.Lo, c.Hi
+	if c.LoOpen {
+		lo++
+	}
+	if c.HiOpen {
+		hi--
+	}
+	if lo <= -two63 || hi >= two63 || lo > hi {
+		return lo, hi, false
+	}
+	return lo, hi, true
+}
+
+// SizedOracle decides, for an integer value under --min-sized-ints, which expected bound checks the chosen Go type makes
+// redundant (marked Optional) and whether the type holds every admitted integer. skip=true: the world is outside the
+// claim (bounds beyond 64 bits, non-integral bounds, contradictory order facts, empty admitted set).
+func (w *World) SizedOracle(s *Spec, goType string, exp []Exp, what string) (out []Exp, issues []Issue, skip bool) {
+	var T *sizedType
+	for i := range sizedTypes {
+		if sizedTypes[i].name == goType {
+			T = &sizedTypes[i]
+		}
+	}
+	if T == nil {
+		return exp, []Issue{{Rule: "A-SIZED", Construct: "integer property without an integer Go type", Msg: fmt.Sprintf("%s: the Go type is %s", what, goType)}}, false
+	}
+	// order facts between an exclusive and an inclusive bound must agree with the cells
+	for _, pr := range [][2]string{{"exclusiveMinimum", "minimum"}, {"exclusiveMaximum", "maximum"}} {
+		a, b := s.Atoms[pr[0]], s.Atoms[pr[1]]
+		if a == nil || b == nil {
+			continue
+		}
+		al, ah, ok1 := w.intCell(a)
+		bl, bh, ok2 := w.intCell(b)
+		if !ok1 || !ok2 {
+			return exp, nil, true
+		}
+		switch w.rel(a, b) {
+		case -1:
+			if al >= bh {
+				return exp, nil, true
+			}
+		case 0:
+			if ah < bl || bh < al {
+				return exp, nil, true
+			}
+		case 1:
+			if ah <= bl {
+				return exp, nil, true
+			}
+		}
+	}
+	for _, a := range s.Atoms {
+		if a != nil && a.Kind == "Float" && a.Facts["integral"] != "yes" && a.Name != "multipleOf" && a.Name != "default" {
+			return exp, nil, true
+		}
+	}
+	var effLo, effHi = -two63, two63 - 1 // admitted integers (within 64 bits)
+	hasLo, hasHi := false, false
+	for i := range exp {
+		e := &exp[i]
+		if e.Kind != "cmp" || e.Atom == nil {
+			continue
+		}
+		cl, ch, ok := w.intCell(e.Atom)
+		if !ok {
+			return exp, nil, true
+		}
+		switch e.Kw {
+		case "lower bound":
+			hasLo = true
+			excl := e.Op == "<="
+			implied, least := ch <= T.min, cl
+			if excl {
+				implied, least = ch < T.min, cl+1
+			}
+			e.Optional = implied
+			effLo = least
+			if least < T.min {
+				issues = append(issues, Issue{Rule: "A-SIZED", Construct: "chosen type cannot hold the smallest admitted value",
+					Msg: fmt.Sprintf("%s: the lower bound may be as small as %v (exclusive=%v) but %s starts at %v: admitted values cannot be decoded", what, cl, excl, T.name, T.min)})
+			}
+		case "upper bound":
+			hasHi = true
+			excl := e.Op == ">="
+			implied, most := cl >= T.max, ch
+			if excl {
+				implied, most = cl > T.max, ch-1
+			}
+			e.Optional = implied
+			effHi = most
+			if most > T.max {
+				issues = append(issues, Issue{Rule: "A-SIZED", Construct: "chosen type cannot hold the largest admitted value",
+					Msg: fmt.Sprintf("%s: the upper bound may be as large as %v (exclusive=%v) but %s ends at %v: admitted values cannot be decoded", what, ch, excl, T.name, T.max)})
+			}
+		}
+	}
+	if !hasLo && T.min > -two63 {
+		issues = append(issues, Issue{Rule: "A-SIZED", Construct: "no lower bound but the type is not int64", Msg: fmt.Sprintf("%s: every negative integer is admitted, the type is %s", what, T.name)})
+	}
+	if !hasHi && T.max < two63-1 {
+		issues = append(issues, Issue{Rule: "A-SIZED", Construct: "no upper bound but the type is narrower than 64 bits", Msg: fmt.Sprintf("%s: arbitrarily large integers are admitted, the type is %s", what, T.name)})
+	}
+	if effLo > effHi {
+		return exp, nil, true // nothing is admitted: both builds reject everything a check can see
+	}
+	return exp, issues, false
 }
